@@ -20,8 +20,9 @@ CONSTANTS Configs,    \* set of <<data, parity>>
           FixNonce,   \* FALSE: CreatePropellerUnits signs (root, committee, nonce) but leaves
                       \*        Unit.Nonce zero (H17, second half)
           FixUnpad,   \* FALSE: UnpadMessage computes varintLen + msgLen with wrap-around
-          FixProto    \* FALSE: UnitFromProto indexes shards[0] and converts the root slice to an
+          FixProto,   \* FALSE: UnitFromProto indexes shards[0] and converts the root slice to an
                       \*        array without checking lengths (H18)
+          FixShardLens \* FALSE: UnitFromProto's "shards of different length" check skips the last shard
 
 Data(c) == c[1]
 Parity(c) == c[2]
@@ -139,9 +140,11 @@ Validate(NP, loc, pub, u, f, j, seen, cached, nz) ==
 
 --------------------------------------------------------------------------
 (* UnitFromProto on a wire unit: well-formed, without shards, with a root that is not 32 bytes *)
-ProtoKinds == {"ok", "noshards", "noroot", "shortroot", "longroot"}
+ProtoKinds == {"ok", "noshards", "noroot", "shortroot", "longroot", "difflen"}
 FromProto(kind) ==
-  CASE kind \in {"ok", "longroot"} -> "unit"       \* a longer root is cut to 32 bytes
+  CASE kind = "ok" -> "unit"
+    [] kind = "longroot" -> IF FixProto THEN "err" ELSE "unit"   \* as is: silently cut to 32 bytes
+    [] kind = "difflen" -> IF FixShardLens THEN "err" ELSE "unit" \* two shards, the last one longer
     [] OTHER -> IF FixProto THEN "err" ELSE "panic"
 
 --------------------------------------------------------------------------
@@ -172,7 +175,8 @@ DoValidate(loc, pub, u, f, j, seen, cached, nz) ==
   /\ loc # pub
   /\ f = "index" => j # u
   /\ f # "index" => j = u
-  /\ (seen \/ cached) => Validate(NPeers(cfg), loc, pub, u, "none", u, FALSE, FALSE, nz) = "ok"
+  /\ (seen \/ cached) => /\ Validate(NPeers(cfg), loc, pub, u, "none", u, FALSE, FALSE, nz) = "ok"
+                         /\ f \notin KeyFields      \* a unit with another key goes to another validator
   /\ f \in {"sender", "publisher"} => NPeers(cfg) >= 3
   /\ exp' = [k |-> "validate", loc |-> loc, pub |-> pub, u |-> u, f |-> f, j |-> j, seen |-> seen,
              cached |-> cached, nz |-> nz]
@@ -182,16 +186,19 @@ DoFromProto(kind) ==
   /\ exp' = [k |-> "fromproto", kind |-> kind]
   /\ out' = FromProto(kind)
 
-Next ==
-  /\ exp.k = "created" /\ UNCHANGED cfg
-  /\ \/ \E S \in SUBSET Slots(cfg) : Receive(S)
-     \/ \E u \in Slots(cfg), f \in ConstructFields, j \in Slots(cfg), b \in BOOLEAN, S \in SUBSET Slots(cfg) :
-           CorruptReceive(u, f, j, b, S)
-     \/ \E kind \in PadKinds, S \in SUBSET Slots(cfg) : ByzantinePad(kind, S)
-     \/ \E loc \in 0..NU(cfg), pub \in 0..NU(cfg), u \in Slots(cfg), f \in ValidateFields, j \in Slots(cfg),
-           seen \in BOOLEAN, cached \in BOOLEAN, nz \in BOOLEAN :
-           DoValidate(loc, pub, u, f, j, seen, cached, nz)
-     \/ \E kind \in ProtoKinds : DoFromProto(kind)
+Fresh == exp.k = "created" /\ UNCHANGED cfg
+ActReceive == Fresh /\ \E S \in SUBSET Slots(cfg) : Receive(S)
+ActCorrupt ==
+  Fresh /\ \E u \in Slots(cfg), f \in ConstructFields, j \in Slots(cfg), b \in BOOLEAN, S \in SUBSET Slots(cfg) :
+             CorruptReceive(u, f, j, b, S)
+ActByzantine == Fresh /\ \E kind \in PadKinds, S \in SUBSET Slots(cfg) : ByzantinePad(kind, S)
+ActValidate ==
+  Fresh /\ \E loc \in 0..NU(cfg), pub \in 0..NU(cfg), u \in Slots(cfg), f \in ValidateFields, j \in Slots(cfg),
+              seen \in BOOLEAN, cached \in BOOLEAN, nz \in BOOLEAN :
+             DoValidate(loc, pub, u, f, j, seen, cached, nz)
+ActFromProto == Fresh /\ \E kind \in ProtoKinds : DoFromProto(kind)
+
+Next == ActReceive \/ ActCorrupt \/ ActByzantine \/ ActValidate \/ ActFromProto
 
 Spec == Init /\ [][Next]_vars
 
@@ -209,8 +216,9 @@ CorruptHarmless ==
      /\ out \in {"msg", "err"}
      /\ (CorWhat(exp.f, exp.benign) \in {"data", "len"} => out = "err")
 
-(* nothing a peer or a publisher can send makes the receiver fail *)
+(* nothing a peer or a publisher can send makes the receiver fail; malformed wire units are errors *)
 NeverFails == out # "panic"
+MalformedWireRejected == (exp.k = "fromproto" /\ exp.kind # "ok") => out = "err"
 
 (* a malformed length prefix is an error, whatever units arrive *)
 BadPaddingRejected == exp.k = "byzpad" => out = "err"
